@@ -25,7 +25,8 @@ RULE = ('Designs: conditions C in 1..3 x every composition of the repetition cou
         'row permutations (thorough), n >= 6 by-condition / reversed / interleaved / rotated; label '
         'naming ints / scrambled strings; methods full, diag, shrinkage_eye, shrinkage_diag; dof None, '
         'scalar (n+1), list / ndarray (one per element); input single, list of 2 (partner = next '
-        'design, other values), 3-D stack of 2 (residuals); functions cov_/prec_from_residuals '
+        'design, other values), 3-D stack of 2 (residuals), tuple of 2 and (datasets) 1-D object '
+        'ndarray of 2 (first row order); 0-d arrays and TemporalDatasets (4-D tensor) must be rejected; functions cov_/prec_from_residuals '
         '(one common mean), cov_/prec_from_unbalanced (all designs), cov_/prec_from_measurements '
         '(balanced designs).  Values: ALL matrices over {0,1,2} for the small shapes (n*P bound per '
         'tier) plus fixed fills per design from VERIF_SEED (small integers with ties and zeros; '
@@ -50,6 +51,12 @@ ASSUMPTIONS = [
     'that is singular or has condition number > 1e6; cov_from_measurements on unbalanced designs',
     'values outside the enumerated alphabets are represented by fixed fills only (at scales 1, 1e-5, 1e+4); '
     'float64 inputs only',
+    'an input without one (observations x channels) matrix (0-d array; TemporalDataset, whose tensor by '
+    'condition is 4-D) is outside the property; the library documents ValueError(wrong # of dimensions) '
+    'for it, the check requires only that it is rejected with an exception and left untouched',
+    'the `cov.ndim > 2` branches of prec_from_* (noise.py 277-279, 356-358, 441-443) are unreachable '
+    'through the public functions: every multi-input form (list, tuple, 3-D/4-D array, object array) '
+    'makes cov_from_* return a Python list and every single input a P x P matrix',
     'the estimators are scale-equivariant (covariance scales with c^2, precision with c^-2, shrinkage '
     'intensity is scale-free): a consequence of the definitions in the property',
 ]
@@ -195,6 +202,13 @@ def run_shard(shard, ctx):
                     for m in METHODS:
                         run_case({'family': 'residuals', 'reps': [n], 'P': p, 'values': v,
                                   'method': m, 'dof': dofk, 'form': form}, ctx)
+        for values in value_kinds(tier):        # further container form: tuple of two matrices
+            for dofk in ('none', 'scalar', 'list'):
+                for m in METHODS:
+                    run_case({'family': 'residuals', 'reps': [n], 'P': p, 'values': values,
+                              'method': m, 'dof': dofk, 'form': 'tuple'}, ctx)
+        if n == 1:
+            _reject_cases(p, ctx)
     elif kind == 'res_alpha':
         n, p = shard['n'], shard['P']
         for idx in range(shard['range'][0], shard['range'][1]):
@@ -233,6 +247,18 @@ def run_shard(shard, ctx):
                         plan.append((values, 1e-5, last, 'str'))
                 else:
                     plan.append((values, 1e-5, first, 'str'))
+            # further container forms of two datasets: tuple, 1-D object ndarray (first row order,
+            # Gaussian fills, unscaled)
+            for values in value_kinds(tier):
+                if values['kind'] != 'gauss':
+                    continue
+                for family in (('unbalanced', 'measurements') if balanced else ('unbalanced',)):
+                    for form in ('tuple', 'objarray'):
+                        for dofk in ('none', 'scalar', 'list'):
+                            for m in METHODS:
+                                run_case({'family': family, 'reps': reps, 'perm': first, 'P': p,
+                                          'naming': 'str', 'values': values,
+                                          'method': m, 'dof': dofk, 'form': form}, ctx)
             for values, scale, perm, naming in plan:
                 for family in (('unbalanced', 'measurements') if balanced else ('unbalanced',)):
                     for form, dofk in combos(family):
@@ -549,14 +575,67 @@ def _lib_inputs(family, form, els):
     """(positional args for the library call, objects to fingerprint, per-element objects)"""
     if family == 'residuals':
         objs = [x.copy() for x, _ in els]
-        arg = objs[0] if form == 'single' else (objs if form == 'list' else np.stack(objs))
+        arg = {'single': lambda: objs[0], 'list': lambda: objs, 'tuple': lambda: tuple(objs),
+               'stack3d': lambda: np.stack(objs)}[form]()
         return (arg,), ([arg] if form == 'stack3d' else objs), objs
     objs = [_dataset(x, lab) for x, lab in els]
-    return ((objs[0] if form == 'single' else objs), 'cond'), objs, objs
+    if form == 'objarray':          # 1-D ndarray (dtype object) of Dataset objects
+        arg = np.empty(len(objs), dtype=object)
+        for i, o in enumerate(objs):
+            arg[i] = o
+    else:
+        arg = {'single': lambda: objs[0], 'list': lambda: objs, 'tuple': lambda: tuple(objs)}[form]()
+    return (arg, 'cond'), objs, objs
+
+
+REJECT_TARGETS = ['residuals:0-d array', 'measurements:TemporalDataset']
+
+
+def _reject_cases(p, ctx):
+    for target in REJECT_TARGETS:
+        for func in ('cov', 'prec'):
+            for dofk in ('none', 'scalar'):
+                for m in METHODS:
+                    run_case({'kind': 'reject', 'target': target, 'func': func, 'P': p,
+                              'method': m, 'dof': dofk}, ctx)
+
+
+def _run_reject(case, ctx, noise):
+    """inputs that are neither a residual matrix nor a Dataset with one measurement matrix (a 0-d
+    array; a TemporalDataset, whose measurement tensor by condition is 4-D): the library documents
+    ValueError('... wrong # of dimensions'); required here: an exception, inputs untouched"""
+    family, what = case['target'].split(':')
+    p = case['P']
+    f = getattr(noise, '%s_from_%s' % (case['func'], family))
+    dofarg = None if case['dof'] == 'none' else 3
+    g = rng_for(ctx.seed, 'c14reject', p)
+    if family == 'residuals':
+        arr = np.array(float(np.round(g.normal(), 3)))
+        args, held = (arr,), [arr]
+    else:
+        from rsatoolbox.data import TemporalDataset
+        m = np.round(g.normal(size=(4, p, 2)), 3)
+        ds = TemporalDataset(m.copy(), obs_descriptors={'cond': [0, 0, 1, 1]})
+        args, held = (ds, 'cond'), [ds]
+    ctx.case(case)
+    before = _fp_inputs(held, dofarg)
+    sigp = '%s|%s,dof=%s' % (f.__name__, what, case['dof'])
+    try:
+        with np.errstate(all='ignore'):
+            out = f(*args, dof=dofarg, method=case['method'])
+    except Exception as e:       # rejected: the expected outcome
+        ctx.outcome(('rejected', type(e).__name__))
+    else:
+        ctx.fail(sigp + '|accepted-undefined-input', case,
+                 'returned %r for an input without a (observations x channels) matrix' % (out,))
+    if _fp_inputs(held, dofarg) != before:
+        ctx.fail(sigp + '|input-modified', case, 'inputs differ bitwise after the call')
 
 
 def run_case(case, ctx):
     from rsatoolbox.data import noise
+    if case.get('kind') == 'reject':
+        return _run_reject(case, ctx, noise)
     family, method, form, dofk = case['family'], case['method'], case['form'], case['dof']
     p = case['P']
     reps = list(case['reps'])
